@@ -204,7 +204,8 @@ pub fn seeds(w: &World, singles: &[Entry], sub: &[Entry]) -> Vec<Seed> {
     // multi-record files
     let mut x = 7u64;
     let mut tries = 0;
-    while out.len() < 58 && tries < 20000 {
+    let n_single = out.len();
+    while out.len() < n_single + 10 && tries < 200_000 {
         tries += 1;
         let k = 2 + (lcg(&mut x) % 2) as usize;
         let idx: Vec<usize> = (0..k).map(|_| (lcg(&mut x) % sub.len() as u64) as usize).collect();
@@ -220,7 +221,7 @@ pub fn seeds(w: &World, singles: &[Entry], sub: &[Entry]) -> Vec<Seed> {
             .collect();
         let g = [(lcg(&mut x) % 2) as u8, (lcg(&mut x) % 2) as u8, (lcg(&mut x) % 3) as u8];
         if let Some(p) = print_file(&w.origin, &w.alts, &recs, &g, &lays) {
-            if p.text.len() <= 220 && lays.iter().any(|l| l[2] == 3) {
+            if p.text.len() <= 220 && lays.iter().any(|l| l[2] == 3 || l[3] != 0 || l[4] != 0) {
                 out.push(Seed { text: p.text, what: format!("{k} records {idx:?}") });
             }
         }
@@ -344,7 +345,8 @@ fn rec_line() -> &'static str {
 }
 
 pub fn families(thorough: bool) -> Vec<Family> {
-    let same_rrset_max = if thorough { 16 } else { 14 };
+    // RecordSet::insert scans the RRset for duplicates: quadratic in the RRset size (observation)
+    let same_rrset_max = if thorough { 15 } else { 14 };
     vec![
         Family { name: "comment-eol", max_pow: 16, build: |n| format!("a 1 IN A 192.0.2.1 ;{}\n", "c".repeat(n)) },
         Family { name: "comment-own-line", max_pow: 16, build: |n| format!(";{}\n{}", "c".repeat(n), rec_line()) },
